@@ -39,11 +39,26 @@ DICT_HINT = {
 _NEWTYPES: dict[str, Any] = {}
 
 
+# types served by a user supplied loader (spec/Load.tla "user"): loader(UserInt, int)
+USER_TYPES = {"int": typing.NewType("UserInt", int), "int early": type("AUser", (), {"__module__": "a"})}
+
+
+def user_recipe() -> list:
+    from adaptix import loader
+    return [loader(USER_TYPES["int"], int), loader(USER_TYPES["int early"], int)]
+
+
+def has_user(T: dict) -> bool:
+    return T["k"] == "user" or any(has_user(a) for a in T["a"])
+
+
 def hint(T: dict, variant: int = 0, rk: int = 0) -> Any:
     """abstract type -> a real type hint.  `variant` selects typing alias vs builtin / abc spelling."""
     k = T["k"]
     if k in SCALAR_HINT:
         return SCALAR_HINT[k]
+    if k == "user":
+        return USER_TYPES[" ".join(T["v"])]
     args = [hint(a, variant, rk) for a in T["a"]]
     if k in ITER_HINT:
         if k == "tuple_var":
@@ -72,6 +87,8 @@ def type_str(T: dict) -> str:
     k = T["k"]
     if k == "literal":
         return "Literal[" + ",".join(T["v"]) + "]"
+    if k == "user":
+        return "user(" + " ".join(T["v"]) + ")"
     if not T["a"]:
         return k
     return k + "[" + ",".join(type_str(a) for a in T["a"]) + "]"
